@@ -130,4 +130,203 @@ theorem insertBytes_spec (fixed : Bool) (s : State) (idx : Nat) (data : Bytes) (
       list_pw
     · intro hf; have hs := hfix hf; subst hs; simp [State.cap]; unfold WFL at h; omega
 
+/-! ## ranges -/
+
+theorem sliceRange_some {sb eb : Bound} {len a b : Nat} (h : sliceRange sb eb len = some (a, b)) :
+    a ≤ b ∧ b ≤ len := by
+  unfold sliceRange at h
+  cases hs : sb.start? with
+  | none => rw [hs] at h; simp at h
+  | some st =>
+    cases he : eb.end? len with
+    | none => rw [hs, he] at h; simp at h
+    | some en =>
+      rw [hs, he] at h
+      simp only at h
+      split at h
+      · simp at h
+      · split at h
+        · simp at h
+        · simp only [Option.some.injEq, Prod.mk.injEq] at h
+          obtain ⟨rfl, rfl⟩ := h
+          omega
+
+/-- the explicit form `start..end` -/
+theorem sliceRange_incl_excl (a b len : Nat) :
+    sliceRange (.incl a) (.excl b) len = if a ≤ b ∧ b ≤ len then some (a, b) else none := by
+  unfold sliceRange
+  simp only [Bound.start?, Bound.end?]
+  by_cases h1 : a > b
+  · rw [if_pos h1, if_neg (by omega)]
+  · rw [if_neg h1]
+    by_cases h2 : b > len
+    · rw [if_pos h2, if_neg (by omega)]
+    · rw [if_neg h2, if_pos (by omega)]
+
+/-! ## drain, replace_range, extend_from_within (byte level) -/
+
+theorem vecDrainDrop_spec (s : State) (a b : Nat) (h : WFL s) (hab : a ≤ b) (hb : b ≤ s.len) :
+    ∃ s', vecDrainDrop s a b = .ok () s' ∧ WFL s' ∧ s'.bytes = s.bytes.take a ++ s.bytes.drop b ∧
+      s'.buf.length = s.buf.length := by
+  unfold vecDrainDrop
+  rw [sliceRange_incl_excl, if_pos ⟨hab, hb⟩]
+  simp only
+  unfold WFL at h
+  split
+  · split
+    · rw [copyWithin_eq _ _ _ _ (by omega) (by omega)]
+      refine ⟨_, rfl, by simp [WFL]; omega, ?_, by simp; omega⟩
+      simp only [State.bytes]
+      list_pw
+    · refine ⟨_, rfl, by simp [WFL]; omega, ?_, rfl⟩
+      have : a = b := by omega
+      subst this
+      simp only [State.bytes]
+      list_pw
+  · refine ⟨_, rfl, by simp [WFL]; omega, ?_, rfl⟩
+    have : b = s.len := by omega
+    subst this
+    simp only [State.bytes]
+    list_pw
+
+/-- the part of `replace_range` after the range check and the boundary assertions -/
+theorem replaceRange_bytes (fixed : Bool) (s : State) (sb eb : Bound) (str : Bytes) (a b : Nat) (h : WFL s)
+    (hr : sliceRange sb eb s.len = some (a, b)) (ha : boundaryOk s a = true) (hb : boundaryOk s b = true) :
+    GrowsTo fixed s (str.length - (b - a)) (replaceRange fixed s sb eb str)
+      (s.bytes.take a ++ str ++ s.bytes.drop b) := by
+  obtain ⟨hab, hbl⟩ := sliceRange_some hr
+  unfold GrowsTo replaceRange
+  rw [hr]
+  simp only [ha, hb, Bool.not_true, Bool.false_eq_true, ↓reduceIte]
+  match hres : reserve fixed s (str.length - (b - a)) with
+  | none =>
+    have := reserve_none_iff.1 hres
+    rw [if_pos (by simpa [State.cap] using this)]
+  | some s1 =>
+    have hn : ¬ (fixed = true ∧ s.cap - s.len < str.length - (b - a)) := by
+      intro hc
+      have := (reserve_none_iff (fixed := fixed) (s := s) (n := str.length - (b - a))).2 (by simpa [State.cap] using hc)
+      rw [this] at hres; simp at hres
+    rw [if_neg hn]
+    obtain ⟨hlen, hbytes, hcap, hw, hfix, _, _⟩ := reserve_some h hres
+    unfold WFL at hw h
+    simp only
+    by_cases heq : b - a = str.length
+    · -- same length: no move
+      rw [if_neg (by omega)]
+      simp only
+      rw [writeAt_eq _ _ _ (by omega)]
+      simp only
+      rw [if_neg (by omega)]
+      refine ⟨_, rfl, by simp [WFL]; omega, ?_, ?_⟩
+      · rw [← hbytes]
+        simp only [State.bytes]
+        have e : ((s1.len : Int) + ((str.length : Int) - ((b - a : Nat) : Int))).toNat = s1.len := by omega
+        rw [e, hlen] at *
+        list_pw
+      · intro hf; have hs := hfix hf; subst hs; simp [State.cap]; omega
+    · rw [if_pos (by omega)]
+      rw [copyWithin_eq _ _ _ _ (by omega) (by omega)]
+      simp only
+      rw [writeAt_eq _ _ _ (by simp; omega)]
+      simp only
+      rw [if_neg (by omega)]
+      refine ⟨_, rfl, by simp [WFL]; omega, ?_, ?_⟩
+      · rw [← hbytes]
+        simp only [State.bytes]
+        have e : ((s1.len : Int) + ((str.length : Int) - ((b - a : Nat) : Int))).toNat = s1.len + str.length - (b - a) := by omega
+        rw [e, hlen] at *
+        list_pw
+      · intro hf; have hs := hfix hf; subst hs; simp [State.cap]; omega
+
+theorem extendFromWithin_bytes (fixed : Bool) (s : State) (sb eb : Bound) (a b : Nat) (h : WFL s)
+    (hr : sliceRange sb eb s.len = some (a, b)) (ha : boundaryOk s a = true) (hb : boundaryOk s b = true) :
+    GrowsTo fixed s (b - a) (extendFromWithin fixed s sb eb)
+      (s.bytes ++ (s.bytes.drop a).take (b - a)) := by
+  obtain ⟨hab, hbl⟩ := sliceRange_some hr
+  unfold GrowsTo extendFromWithin
+  rw [hr]
+  simp only [ha, hb, Bool.not_true, Bool.false_eq_true, ↓reduceIte]
+  match hres : reserve fixed s (b - a) with
+  | none =>
+    have := reserve_none_iff.1 hres
+    rw [if_pos (by simpa [State.cap] using this)]
+  | some s1 =>
+    have hn : ¬ (fixed = true ∧ s.cap - s.len < b - a) := by
+      intro hc
+      have := (reserve_none_iff (fixed := fixed) (s := s) (n := b - a)).2 (by simpa [State.cap] using hc)
+      rw [this] at hres; simp at hres
+    rw [if_neg hn]
+    obtain ⟨hlen, hbytes, hcap, hw, hfix, _, _⟩ := reserve_some h hres
+    unfold WFL at hw h
+    simp only
+    rw [copyWithin_eq _ _ _ _ (by omega) (by omega)]
+    refine ⟨_, rfl, by simp [WFL]; omega, ?_, ?_⟩
+    · rw [← hbytes]
+      simp only [State.bytes]
+      rw [hlen] at *
+      list_pw
+    · intro hf; have hs := hfix hf; subst hs; simp [State.cap]; omega
+
+/-! ## split_off (byte level) -/
+
+theorem splitOff_bytes (f : Bool) (s : State) (sb eb : Bound) (a b : Nat) (h : WFL s)
+    (hr : sliceRange sb eb s.len = some (a, b)) (ha : boundaryOk s a = true) (hb : boundaryOk s b = true) :
+    ∃ o s', splitOff f s sb eb = .ok o s' ∧ WFL o ∧ WFL s' ∧ o.bytes = (s.bytes.drop a).take (b - a) ∧
+      s'.bytes = s.bytes.take a ++ s.bytes.drop b ∧ o.cap + s'.cap = s.cap := by
+  obtain ⟨hab, hbl⟩ := sliceRange_some hr
+  unfold WFL at h
+  unfold splitOff
+  simp only [hr, ha, hb, Bool.not_true, Bool.false_eq_true, ↓reduceIte]
+  by_cases h1 : b = s.len
+  · rw [if_pos h1]
+    subst h1
+    refine ⟨_, _, rfl, by simp [WFL]; omega, by simp [WFL]; omega, ?_, ?_, by simp [State.cap]; omega⟩
+    · simp only [State.bytes]; list_pw
+    · simp only [State.bytes]; list_pw
+  · rw [if_neg h1]
+    by_cases h2 : a = 0
+    · rw [if_pos h2]
+      subst h2
+      refine ⟨_, _, rfl, by simp [WFL]; omega, by simp [WFL]; omega, ?_, ?_, by simp [State.cap]; omega⟩
+      · simp only [State.bytes]; list_pw
+      · simp only [State.bytes]; list_pw
+    · rw [if_neg h2]
+      by_cases h3 : a = b
+      · subst h3
+        have hx : ((!f && decide (a = a)) = true) ∨ ((f && decide (a = a)) = true) := by cases f <;> simp
+        have hres : (if (!f && decide (a = a)) = true then Res.ok ({ buf := [], len := 0 } : State) s
+            else if (f && decide (a = a)) = true then Res.ok ({ buf := [], len := 0 } : State) s
+            else
+              if a < s.len - a then
+                Res.ok { buf := List.take (a - a) (rotateRight (List.take a s.buf) (a - a) ++ List.drop a s.buf), len := a - a }
+                  { buf := List.drop (a - a) (rotateRight (List.take a s.buf) (a - a) ++ List.drop a s.buf), len := s.len - (a - a) }
+              else
+                Res.ok { buf := List.drop (s.len - (a - a)) (List.take a s.buf ++ rotateLeft (List.drop a (List.take s.len s.buf)) (a - a) ++ List.drop s.len s.buf), len := a - a }
+                  { buf := List.take (s.len - (a - a)) (List.take a s.buf ++ rotateLeft (List.drop a (List.take s.len s.buf)) (a - a) ++ List.drop s.len s.buf), len := s.len - (a - a) })
+            = Res.ok ({ buf := [], len := 0 } : State) s := by
+          rcases hx with hx | hx
+          · rw [if_pos hx]
+          · by_cases hy : (!f && decide (a = a)) = true
+            · rw [if_pos hy]
+            · rw [if_neg hy, if_pos hx]
+        rw [hres]
+        refine ⟨_, _, rfl, by simp [WFL], h, ?_, ?_, by simp [State.cap]⟩
+        · simp [State.bytes]
+        · simp
+      · have hy1 : ¬ ((!f && decide (a = b)) = true) := by simp [h3]
+        have hy2 : ¬ ((f && decide (a = b)) = true) := by simp [h3]
+        rw [if_neg hy1, if_neg hy2]
+        by_cases h4 : a < s.len - b
+        · rw [if_pos h4]
+          refine ⟨_, _, rfl, by simp [WFL, rotateRight]; omega, by simp [WFL, rotateRight]; omega, ?_, ?_,
+            by simp [State.cap, rotateRight]; omega⟩
+          · simp only [State.bytes, rotateRight]; list_pw
+          · simp only [State.bytes, rotateRight]; list_pw
+        · rw [if_neg h4]
+          refine ⟨_, _, rfl, by simp [WFL, rotateLeft]; omega, by simp [WFL, rotateLeft]; omega, ?_, ?_,
+            by simp [State.cap, rotateLeft]; omega⟩
+          · simp only [State.bytes, rotateLeft]; list_pw
+          · simp only [State.bytes, rotateLeft]; list_pw
+
 end Str
